@@ -4,8 +4,8 @@
 
 use crate::glue;
 use crate::monitor::panic::{catch, Ended, PanicInfo};
-use crate::monitor::reader::{ContractReader, RLog, SegmentedReader};
-use crate::monitor::writer::{RecordingWriter, WEvent};
+use crate::monitor::reader::{ContractReader, RLog, SeamReader, SegmentedReader};
+use crate::monitor::writer::{BoundedWriter, OffsetWriter, RecordingWriter, WEvent};
 use crate::spec::model::*;
 use rl2tp::avp::types as t;
 use rl2tp::avp::AVP;
@@ -284,6 +284,8 @@ pub struct Encoded {
 pub enum Wk {
     Vec,
     Recording,
+    /// window writer whose positions start at the given base (prefix must be empty)
+    Offset(usize),
 }
 
 pub enum EncOut {
@@ -322,6 +324,23 @@ pub fn encode_items(prefix: &[u8], items: &[Item], wk: Wk) -> EncOut {
             });
             match e {
                 Ended::Returned(bytes) => EncOut::Ok(Encoded { bytes, events: vec![] }),
+                Ended::Panicked(p) => EncOut::Panic(p),
+                Ended::StepBudget => unreachable!(),
+            }
+        }
+        Wk::Offset(base) => {
+            let e = catch(|| {
+                let mut w = OffsetWriter::new(base);
+                for it in items {
+                    match it {
+                        Item::Msg(m) => m.write(&mut w),
+                        Item::Avp(a) => a.write(&mut w),
+                    }
+                }
+                (w.data, w.events)
+            });
+            match e {
+                Ended::Returned((bytes, events)) => EncOut::Ok(Encoded { bytes, events }),
                 Ended::Panicked(p) => EncOut::Panic(p),
                 Ended::StepBudget => unreachable!(),
             }
@@ -389,4 +408,95 @@ pub fn hidden_exact(attr: u16, value: &[u8]) -> AVP {
     let mut v = Vec::with_capacity(value.len());
     v.extend_from_slice(value);
     AVP::Hidden(t::Hidden { attribute_type: attr, value: v })
+}
+
+/// Decode a message through the seam reader (results are reported but not judged; see SeamReader).
+pub fn decode_msg_seam(b: &[u8], seam: usize, o: Option<SOpts>) -> Out<SMsg> {
+    let seam = seam.min(b.len());
+    let a: Box<[u8]> = b[..seam].into();
+    let c: Box<[u8]> = b[seam..].into();
+    let e = catch(|| {
+        let mut r = SeamReader::new(&a, &c);
+        let res = match o {
+            Some(o) => Message::<&[u8]>::try_read_validate(&mut r, glue::opts(o)),
+            None => Message::<&[u8]>::try_read(&mut r),
+        };
+        res.map(|m| glue::msg_to_spec(&m))
+    });
+    match e {
+        Ended::Returned(Ok(m)) => Out::Ok(m),
+        Ended::Returned(Err(e)) => Out::Err(e),
+        Ended::Panicked(p) => Out::Panic(p),
+        Ended::StepBudget => Out::Budget,
+    }
+}
+
+/// Fault provocation: a handful of calls that are *expected to fail* (refused encodes that panic
+/// part-way, a writer that runs out of room, reveals that error out, garbage decodes). Their
+/// outcomes are ignored; the point is that whatever the codec leaves behind after a failure must
+/// not influence the checked calls that follow on the same thread.
+pub fn provoke_failures(r: &mut crate::gen::Rng) {
+    use crate::gen::val;
+    let n = 1 + r.below(3);
+    for _ in 0..n {
+        match r.below(8) {
+            0 => {
+                // control message with one oversize AVP somewhere after valid ones
+                let mut c = val::control(r, 4, 40);
+                let big = SAvp { attr: *r.pick(&[7u16, 8, 11, 26, 33]), hidden: false, body: if r.bool() { SBody::Bytes(r.bytes_range(1018, 1100)) } else { SBody::Bytes(vec![0x41; 1018]) } };
+                let big = if big.attr == 8 { SAvp { attr: 8, hidden: false, body: SBody::Str("x".repeat(1020)) } } else { big };
+                if c.avps.is_empty() {
+                    c.avps.push(val::avp_of(r, 0, 8));
+                }
+                let at = 1 + r.below(c.avps.len() as u64) as usize;
+                c.avps.insert(at, big);
+                if let Some(m) = glue::msg_to_crate(&SMsg::Control(c)) {
+                    let _ = encode_msg(&m, if r.bool() { Wk::Vec } else { Wk::Recording });
+                }
+            }
+            1 => {
+                let a = SAvp { attr: 7, hidden: r.bool(), body: SBody::Bytes(r.bytes_range(1018, 1030)) };
+                if let Some(ca) = glue::avp_to_crate(&a) {
+                    let _ = encode_avp(&ca, Wk::Vec);
+                    let _ = hide(ca, b"s", [0; 4], &[], &[0; 16]);
+                }
+            }
+            2 | 3 => {
+                // a writer that runs out of room part-way through a message / an AVP
+                let m = glue::msg_to_crate(&SMsg::Control(val::control(r, 5, 40))).unwrap();
+                let a = glue::avp_to_crate(&val::any_avp(r, 40)).unwrap();
+                let cap = r.range(0, 40) as usize;
+                let _ = catch(|| {
+                    let mut w = BoundedWriter::new(cap);
+                    if cap % 2 == 0 {
+                        m.write(&mut w);
+                    } else {
+                        a.write(&mut w);
+                    }
+                    w.data.len()
+                });
+            }
+            4 | 5 => {
+                // reveals that fail: wrong key, crafted bad length, misaligned, empty
+                let secret = val::secret(r);
+                let mut rv = [0u8; 4];
+                rv.copy_from_slice(&r.bytes(4));
+                let n = 16 * r.range(1, 4) as usize;
+                let mut plain = r.bytes(n);
+                let declared: u16 = *r.pick(&[0u16, 3, 5, 1024, 0xffff, (n as u16) + 6, (n as u16) + 5, 200]);
+                plain[0] = (declared >> 8) as u8;
+                plain[1] = declared as u8;
+                let v = crate::spec::hide::encrypt(7, &plain, &secret, &rv);
+                let _ = reveal(hidden_exact(7, &v), &secret, rv);
+                let _ = reveal(hidden_exact(7, &v[..v.len() - 1]), &secret, rv);
+                let _ = reveal(hidden_exact(8, &[]), &secret, rv);
+            }
+            _ => {
+                let (b, _) = crate::gen::wire::hostile(r);
+                let _ = decode_msg(&b, Some(SOpts::from_index(r.below(8) as u8)), Rk::Slice);
+                let _ = decode_avps(&b, Rk::Slice);
+                let _ = decode_msg_seam(&b, r.below(b.len() as u64 + 1) as usize, None);
+            }
+        }
+    }
 }
